@@ -69,12 +69,16 @@ FAMILIES["C09"] = dict(
 FAMILIES["C10"] = dict(
     famtag="C10",
     files=["spec/cases/C09_edges.ndjson"],
-    g=[G("MC_C09", "MC_C09_quick.cfg", "MC_C09_thorough.cfg")],
+    g=[G("MC_C09", "MC_C09_quick.cfg", "MC_C09_thorough.cfg"), G("MC_C10B", "MC_C10B_quick.cfg", "MC_C10B_thorough.cfg")],
     v=[dict(profile="mix", n={"quick": 6000, "thorough": 120000}, args=["-nulls"]),
-       dict(profile="calls", n={"quick": 2000, "thorough": 40000})],
+       dict(profile="calls", n={"quick": 2000, "thorough": 40000}),
+       dict(profile="jsonbytes", n={"quick": 4000, "thorough": 80000})],
+    trace_by_ev={"EvalBytes": "TraceBytes"},
     level_text=("ResultsAreJson and the EvalBytes action (= Encode o Eval o Decode) are stated on the specification's outcome domain: a value that cannot be projected onto the JSON value domain (an internal type, a "
                 "non-finite number), a result that does not marshal or does not read back as the same value, an EvalBytes outcome that differs from Eval's, or 'no value' reported otherwise than as ErrUndefined is rejected "
-                "by trace validation on every recorded step (TLC-enumerated type-chaotic programs and seeded ones)."),
+                "by trace validation on every recorded step (TLC-enumerated type-chaotic programs and seeded ones). "
+                "The input side of EvalBytes is a TLA+ acceptor and denotation of JSON texts over bytes (JJson: RFC 8259 grammar, escapes, surrogate pairs, number grammar without leading zeros): TLC enumerates every byte string of up to 3 (4 thorough) "
+                "bytes over a 16-letter structural alphabet and eleven documents with every trailing byte, deletion, replacement and truncation; each is handed to the real EvalBytes and TraceBytes requires rejection exactly of the non-texts and, for '$', a result denoting the input's value."),
     level_note=_TOTAL_NOTE + " The projection (harness/jh/value.go) is the definition of 'JSON-representable' used by the check.",
 )
 
